@@ -67,6 +67,10 @@ def _run(repo: Repo, rep: Report, tier: str, only_completion: bool) -> None:
         _declare(rep)
     _body(repo, rep)
 
+    if not only_completion:
+        check_message_reset(repo, rep)
+        from .c16 import check_reader_presence
+        check_reader_presence(repo, rep, "reader-bits")
 
 def _declare(rep):
     rep.rule("overhead-count", "the number of fragments per part is ceil(length / payload size) on the command, data and file paths")
@@ -301,3 +305,36 @@ def _body(repo, rep):
     rep.check(len(calls) == 1 and len(calls[0].args) == 2 and norm(calls[0].args[1]) == "self.maximum_pdu_size" and norm(calls[0].args[0]) == "context_id", "peer-maximum", "dimse.DIMSEServiceProvider.send_msg", calls[0] if calls else "encode_msg(?)", "encode_msg must be given the context id and the peer's maximum PDU size", mod=dm, node=sm)
     loop = [f for f in walk_no_nested(sm) if isinstance(f, ast.For) and "encode_msg" in norm(f.iter)]
     rep.check(bool(loop) and any(norm(s) == f"self.dul.send_pdu({norm(loop[0].target)})" for s in loop[0].body), "peer-maximum", "dimse.DIMSEServiceProvider.send_msg", "for pdata in encode_msg(..): self.dul.send_pdu(pdata)", "every fragment must be handed to the provider in generation order", mod=dm, node=sm)
+
+
+def check_message_reset(repo: Repo, rep: Report) -> None:
+    """The receiver accumulates fragments in DIMSEServiceProvider.message until decode_msg reports the message
+    complete. From that point every way out of receive_primitive must drop the object (`self.message =
+    None`) - or abort the association (Evt19) - so that the next message starts from an empty one: a
+    completed message left in place has the next message's command fragments appended to its own."""
+    rep.rule("message-reset", "once a message is complete every exit of receive_primitive resets self.message (or queues Evt19)")
+    dm = repo.mod("dimse")
+    fn = repo.func("dimse", "DIMSEServiceProvider.receive_primitive")
+    fq = "dimse.DIMSEServiceProvider.receive_primitive"
+    cfg = CFG(fn, body=body_nodoc(fn), local_exc_only=True)
+    tests = [n for n in cfg.nodes if n.kind == "test" and norm(n.ast.test) in ("is_complete", "is_complete is True", "is_complete == True")]
+    if len(tests) != 1:
+        rep.defer(f"{fq}: the `is_complete` test was not found")
+        return
+    start = [m for m, l in tests[0].succ if l == "true"]
+
+    def via(n):
+        if n.kind != "stmt":
+            return False
+        if isinstance(n.ast, ast.Assign) and norm(n.ast.targets[0]) == "self.message" and norm(n.ast.value) in ("None", "DIMSEMessage()"):
+            return True
+        return any(norm(c.func).endswith("event_queue.put") and c.args and norm(c.args[0]) == "'Evt19'" for c in calls_at(n))
+
+    ok, w = (True, [])
+    for s0 in start:
+        if via(s0):
+            continue
+        ok, w = cfg.must_pass(s0, via, {cfg.exit.id})
+        if not ok:
+            break
+    rep.check(ok, "message-reset", fq, "complete message ... exit without `self.message = None`", "a path leaves receive_primitive after a message was completed without dropping the message object: the next message's fragments are appended to the finished one (its command set then decodes with stale elements, or not at all)", mod=dm, node=tests[0].ast, path=[f"L{x.line}" for x in w if x.ast is not None][-10:])
